@@ -330,6 +330,19 @@ func genNeg(r *hx.Rand) *negCase {
 		if nc := strings.Count(call.Header, ","); nc > 0 && r.Chance(1, 6) {
 			call.Split = r.Range(1, nc)
 		}
+		if i > 0 && cur[kind] != "" && r.Chance(1, 7) {
+			// a further field line is ADDED to the request between two calls, the first line staying as it was
+			// (Request.Header.Add): the list the helper negotiates over is the lines joined
+			extra, g2 := genNegHeader(r, kind)
+			if len(offers[kind]) > 0 && r.Chance(1, 2) { // decisive: excludes / prefers one of the offers
+				extra, g2 = hx.Pick(r, offers[kind])+hx.Pick(r, []string{";q=0", ";q=1", ";q=0.001"}), true
+			}
+			if extra != "" {
+				call.Split = strings.Count(cur[kind], ",") + 1
+				cur[kind], gh[kind] = cur[kind]+","+extra, gh[kind] && g2
+				call.Header, call.G = cur[kind], gh[kind] && go_[kind]
+			}
+		}
 		k.Calls = append(k.Calls, call)
 	}
 	return k
